@@ -8,11 +8,14 @@ import (
 	"fmt"
 	"github.com/mimiro-io/datahub/internal/verifrt/engine"
 	"os"
+	"reflect"
 	"strings"
 	"sync"
 	"time"
+	"unsafe"
 
 	"github.com/DataDog/datadog-go/v5/statsd"
+	"github.com/bamzi/jobrunner"
 	"go.uber.org/zap"
 
 	"github.com/mimiro-io/datahub/internal/conf"
@@ -108,6 +111,11 @@ type JobSpec struct {
 	// Mixed: the job has a second trigger of the other job type (an incremental job with a periodic fullsync,
 	// both sharing the job's continuation token)
 	Mixed bool `json:"mixed,omitempty"`
+	// Same: the job has a second trigger of the same job type, with the error handlers OnError2
+	Same     bool                     `json:"same,omitempty"`
+	OnError2 []map[string]interface{} `json:"on_error2,omitempty"`
+	// Live: not paused, on a schedule that never fires: the runner's cron holds the job objects
+	Live bool `json:"live,omitempty"`
 }
 
 // jobConfig builds the real JobConfiguration (as JSON, parsed by the scheduler's own parser).
@@ -134,6 +142,15 @@ func (j *JWorld) jobConfig(h *server.VHist, id string, sp JobSpec) (*JobConfigur
 			other = "incremental"
 		}
 		cfg["triggers"] = append(cfg["triggers"].([]interface{}), map[string]interface{}{"triggerType": "cron", "jobType": other, "schedule": "0 0 2 1 *", "onError": sp.OnError})
+	}
+	if sp.Same {
+		cfg["triggers"] = append(cfg["triggers"].([]interface{}), map[string]interface{}{"triggerType": "cron", "jobType": sp.JobType, "schedule": "0 0 2 1 *", "onError": sp.OnError2})
+	}
+	if sp.Live {
+		cfg["paused"] = false
+		for _, t := range cfg["triggers"].([]interface{}) {
+			t.(map[string]interface{})["schedule"] = jNeverSchedule
+		}
 	}
 	if sp.JS != "" {
 		tr := map[string]interface{}{"Type": "JavascriptTransform", "Code": base64.StdEncoding.EncodeToString([]byte(sp.JS))}
@@ -193,6 +210,27 @@ func (j *JWorld) reloadJob(id string) (*job, error) {
 		return nil, fmt.Errorf("toTriggeredJobs: %v", err)
 	}
 	return jobs[0], nil
+}
+
+// jNeverSchedule is a cron expression that parses and never fires (30 February).
+const jNeverSchedule = "0 0 30 2 *"
+
+// heldJobs returns the job objects the runner's cron holds for a job id: what a firing trigger runs.
+func (j *JWorld) heldJobs(id string) []*job {
+	var out []*job
+	for _, eid := range j.Runner.scheduledJobs[id] {
+		e := jobrunner.MainCron.Entry(eid)
+		jr, ok := e.Job.(*jobrunner.Job)
+		if !ok {
+			continue
+		}
+		f := reflect.ValueOf(jr).Elem().FieldByName("inner")
+		v := reflect.NewAt(f.Type(), unsafe.Pointer(f.UnsafeAddr())).Elem().Interface()
+		if jb, ok := v.(*job); ok {
+			out = append(out, jb)
+		}
+	}
+	return out
 }
 
 func (j *JWorld) lastResult(id string) *jobResult {
